@@ -52,6 +52,12 @@ where
     ring: u16,
     site: &'static str,
     seen_dispatches: usize,
+    /// restart with a different descriptor: the descriptor to switch to, and whether the frontend has switched
+    kick_new: Option<OwnedFd>,
+    switched: bool,
+    /// the worker has consumed a kick of the observed ring that it has not dispatched yet
+    w_consumed: bool,
+    last_counter: u64,
     script: Vec<EStep>,
     e_pos: usize,
     k_pos: usize,
@@ -82,6 +88,12 @@ fn script(kind: &str) -> Vec<EStep> {
             EStep::Send(GET_VRING_BASE, p_vring_state(r, 0), false, Effect::Deactivate, "GET_VRING_BASE"),
             EStep::Recv,
             EStep::Send(SET_VRING_KICK, p_u64(r as u64), true, Effect::Activate, "SET_VRING_KICK"),
+            EStep::Recv,
+        ],
+        "stop-restart-newfd" => vec![
+            EStep::Send(GET_VRING_BASE, p_vring_state(r, 0), false, Effect::Deactivate, "GET_VRING_BASE"),
+            EStep::Recv,
+            EStep::Send(SET_VRING_KICK, p_u64(r as u64), true, Effect::Activate, "SET_VRING_KICK(new descriptor)"),
             EStep::Recv,
         ],
         "reset-enable" => vec![
@@ -143,7 +155,9 @@ where
         sync(&mut h, SET_VRING_ENABLE, p_vring_state(ring as u32, 1), vec![], x)?;
         h.be.take_dispatches();
         let site = if two { "handle_event#1" } else { "handle_event" };
-        Ok(St { h, kick, kick_other, k0_done: false, ring, site, seen_dispatches: 0, script: script(self.0.kind), e_pos: 0, k_pos: 0, kicks: self.0.kicks, sent: vec![], replies_sent: 0, confirmed_inactive: false, worker_had_decided: false, dispatches_before: 0, dispatches_valid_after_last_kick: 0, last_kick_seen: false, post_stop: 0, post_stop_after_last_kick: 0 })
+        let kick_new = if self.0.kind.ends_with("newfd") { Some(eventfd(0, true)) } else { None };
+        install_ring_lock_hook();
+        Ok(St { h, kick, kick_other, k0_done: false, ring, site, seen_dispatches: 0, kick_new, switched: false, w_consumed: false, last_counter: 0, script: script(self.0.kind), e_pos: 0, k_pos: 0, kicks: self.0.kicks, sent: vec![], replies_sent: 0, confirmed_inactive: false, worker_had_decided: false, dispatches_before: 0, dispatches_valid_after_last_kick: 0, last_kick_seen: false, post_stop: 0, post_stop_after_last_kick: 0 })
     }
 
     fn env_names(&self) -> Vec<String> {
@@ -157,7 +171,15 @@ where
                 Some(EStep::Recv) => s.h.msg_ready(),
                 None => false,
             },
-            _ => s.k_pos < s.kicks,
+            _ => {
+                if s.kick_new.is_some() || s.switched {
+                    // restart with a new descriptor: at most kicks-1 early kicks on the old descriptor,
+                    // the last kick(s) on the new one once the frontend's script is complete
+                    (!s.switched && s.k_pos + 1 < s.kicks) || (s.e_pos == s.script.len() && s.k_pos < s.kicks)
+                } else {
+                    s.k_pos < s.kicks
+                }
+            }
         }
     }
 
@@ -167,6 +189,14 @@ where
             s.e_pos += 1;
             match step {
                 EStep::Send(code, payload, with_fd, eff, label) => {
+                    if with_fd {
+                        if let Some(n) = s.kick_new.take() {
+                            // from now on the guest kicks the new descriptor
+                            s.kick = n;
+                            s.switched = true;
+                            s.last_counter = 0;
+                        }
+                    }
                     let fds = if with_fd { vec![s.kick.as_raw_fd()] } else { vec![] };
                     s.h.send(code, F_VERSION | F_NEED_REPLY, &payload, &fds);
                     if eff == Effect::Activate {
@@ -210,6 +240,12 @@ where
     }
 
     fn after_step(&self, s: &mut Self::S, info: &StepInfo, x: &mut Exec) {
+        // did somebody consume the observed ring's kick in this step? (only the worker reads it)
+        let now = eventfd_count(s.kick.as_raw_fd()).unwrap_or(0);
+        if now < s.last_counter {
+            s.w_consumed = true;
+        }
+        s.last_counter = now;
         if let Actor::Thread(name) = &info.actor {
             if name.starts_with("vmc-daemon") {
                 if let Some(Point::Send(_)) = info.point {
@@ -222,7 +258,9 @@ where
                         s.confirmed_inactive = true;
                         // was the worker already past the library's enabled-check at that time?
                         let snap = x.ctl.snapshot();
-                        s.worker_had_decided = snap.iter().any(|p| !p.0.starts_with("vmc-daemon") && p.2 == Some(Point::User(s.site)));
+                        // ... i.e. parked at the handler's entry, or it has already consumed the kick under
+                        // the ring lock (the library consumes only what it has decided to dispatch)
+                        s.worker_had_decided = s.w_consumed || snap.iter().any(|p| !p.0.starts_with("vmc-daemon") && p.2 == Some(Point::User(s.site)));
                     }
                 }
             }
@@ -230,6 +268,7 @@ where
             if !name.starts_with("vmc-daemon") {
                 if info.point == Some(Point::User(s.site)) {
                     // the backend's handler is entered now for the observed ring
+                    s.w_consumed = false;
                     if s.confirmed_inactive {
                         s.post_stop += 1;
                         if s.last_kick_seen {
@@ -323,6 +362,8 @@ pub fn run(rep: &mut Report) {
         run_one(rep, Sc12 { kind, kicks: 1, mutex: false }, bound, per);
     }
     run_one(rep, Sc12 { kind: "disable-enable", kicks: 1, mutex: true }, if thorough { 2 } else { 1 }, per);
+    // restart with a different descriptor, an early kick on the old one and a final kick on the new one
+    run_one(rep, Sc12 { kind: "stop-restart-newfd", kicks: 2, mutex: false }, if thorough { 2 } else { 1 }, per);
     // two rings on one worker: the observed ring's event can sit unread in an epoll batch while the
     // worker is inside the other ring's handler
     for kind in ["2r-disable-enable", "2r-stop-restart", "2r-reset-enable"] {
@@ -348,6 +389,7 @@ pub fn replay(case: &Value, rep: &mut Report) {
         Some(&"stop-restart") => "stop-restart",
         Some(&"reset-enable") => "reset-enable",
         Some(&"disable-only") => "disable-only",
+        Some(&"stop-restart-newfd") => "stop-restart-newfd",
         Some(&"2r-disable-enable") => "2r-disable-enable",
         Some(&"2r-stop-restart") => "2r-stop-restart",
         Some(&"2r-reset-enable") => "2r-reset-enable",
